@@ -156,6 +156,13 @@ type chain struct {
 
 	m      *model
 	states map[string]struct{}
+
+	// tp > 0: the client has a short trusting period and, once enough headers are stored, every update is delivered in a
+	// block whose time is one second before the head's consensus state expires (a relayer that resumes just in time):
+	// all older consensus states are expired then. What the client does with expired states must not disturb the
+	// recent-signer window.
+	tp      uint64
+	anchorN int
 }
 
 func newChain(r *core.Run, node *core.Node, id string, idx int) *chain {
@@ -357,6 +364,11 @@ func (c *chain) create() bool {
 		roots: map[uint64][]byte{anchor: h.Root}, history: []*bsctypes.Header{h},
 	}
 	cs := &bsctypes.ClientState{Header: *h, ChainId: c.chainID, Epoch: c.epoch, BlockInteval: 3, Validators: addrBytes(cur), ContractAddress: rnd(rng, 20), TrustingPeriod: 1 << 40}
+	if rng.Intn(3) == 0 {
+		c.tp = 600 + uint64(rng.Intn(5000))
+		cs.TrustingPeriod = c.tp
+		c.r.Count("chains_with_short_trusting_period", 1)
+	}
 	cons := &bsctypes.ConsensusState{Timestamp: h.Time, Height: h.Height, Root: h.Root}
 	if err := cs.Validate(); err != nil {
 		c.r.Inconclusive("%s: anchor client state not accepted by Validate: %v", c.id, err)
@@ -990,6 +1002,11 @@ func (c *chain) try(cd cand) (ok bool, m2 *model, write func()) {
 	ctx := c.node.Ctx()
 	cctx, write := ctx.CacheContext()
 	cctx = cctx.WithEventManager(sdk.NewEventManager())
+	if c.tp > 0 && m.head.Height.RevisionHeight-m.anchor > 2*m.window()+8 {
+		// the oldest stored consensus state is far outside the window by now
+		cctx = cctx.WithBlockTime(time.Unix(int64(m.head.Time+c.tp-1), 0))
+		r.Count("updates_delivered_one_second_before_the_head_state_expires", 1)
+	}
 	err, panicked := core.Catch(func() error { return c.node.App.XIBCKeeper.ClientKeeper.UpdateClient(cctx, c.name, h) })
 	accepted := err == nil
 	bh := blockHash(h)
@@ -1212,6 +1229,11 @@ func (c *chain) run() {
 	k := c.node.App.XIBCKeeper.ClientKeeper
 	for hh, root := range c.m.roots {
 		cons, found := k.GetClientConsensusState(ctx, c.name, clienttypes.NewHeight(0, hh))
+		if !found && c.tp > 0 && hh != c.m.head.Height.RevisionHeight {
+			// updates of this chain were delivered when every state but the head's had expired: the client may prune those
+			r.Count("expired_consensus_states_pruned_by_the_client", 1)
+			continue
+		}
 		if !found || !bytes.Equal(cons.GetRoot(), root) {
 			r.Violation(c.id, "state/consensus-root-of-earlier-height-lost", map[string]interface{}{"config": c.desc(), "height": hh, "found": found})
 			break
